@@ -192,7 +192,7 @@ pub struct Cfg {
     pub chain_limit: usize,
     pub max_gas: u64,
     pub max_bytes: usize,
-    /// richer alphabet (more preconfirmation heights, all constraint presets)
+    /// richer alphabet (far-ahead preconfirmations, late failure preconfirmations)
     pub rich: bool,
     /// The transactions of the universe that can be submitted / preconfirmed in this exploration.
     pub txs: Vec<&'static str>,
@@ -1046,7 +1046,7 @@ impl Subject for PoolSubject {
         if !w.w.queued_inserts().is_empty() {
             ops.push(Op::Drain);
         }
-        let presets: &[u8] = if self.cfg.rich { &[0, 1, 2, 3, 4] } else { &[0, 1, 2, 3] };
+        let presets: &[u8] = &[0, 1, 2, 3, 4];
         if !pooled.is_empty() {
             for &p in presets {
                 ops.push(Op::Extract(p));
